@@ -112,6 +112,12 @@ def probes(R, C, state):
               ("add_cols:dup-within", "add_cols p0 2 1 0 5 SAME 0 1 0 5 SAME 0"),
               ("delete_named_columns_list:last-unknown", "delete_named_columns_list p0 2 x nosuchcol"),
               ("get_named_x:rowname", "get_named_x p0 c1"), ("delete_named_column:rowname", "delete_named_column p0 c1")]
+    # an index listed twice inside one new row / column
+    if C > 1:
+        P += [("add_row:dup-index", "add_row p0 1 L NEWR 2 0 3 0 4"), ("add_ranged_row:dup-index", "add_ranged_row p0 1 R 2 NEWR 3 1 1 0 2 1 5"),
+              ("add_rows:dup-index", "add_rows p0 2 1 L NEWR1 1 0 1 2 G NEWR2 2 1 3 1 4")]
+    if R > 1:
+        P += [("add_col:dup-index", "add_col p0 1 0 5 NEWC 2 0 3 0 4"), ("add_cols:dup-index", "add_cols p0 2 1 0 5 NEWC1 1 0 1 1 0 5 NEWC2 3 1 1 0 2 1 3")]
     # an index or name listed twice in a delete list
     if R > 1:
         P += [("delete_rows:dup", "delete_rows p0 2 0 0"), ("delete_rows:dup3", "delete_rows p0 3 1 0 1"),
